@@ -31,7 +31,7 @@ COMPONENTS = {"real": ["ipv8.requestcache.RequestCache/NumberCache/RandomNumberC
 ASSUMPTIONS = ["single-threaded use of RequestCache (its locks are exercised without contention)",
                "asyncio call_soon FIFO and Task cancellation semantics are trusted"]
 REACH = ["race_pop_vs_expiry", "reentrant_pop", "reentrant_add", "shutdown_with_outstanding", "dup_add_refused",
-         "pop_after_timeout_keyerror", "readd_same_object", "timeout_fired", "future_completed_on_timeout", "timeout_with_user_completed_future", "handler_raised_on_claimed_response", "handler_reused_identity", "handler_hit", "handler_miss"]
+         "pop_after_timeout_keyerror", "readd_same_object", "timeout_fired", "future_completed_on_timeout", "timeout_with_user_completed_future", "same_object_reissued_in_same_tick", "handler_raised_on_claimed_response", "handler_reused_identity", "handler_hit", "handler_miss"]
 
 DELAYS = [0.5, 1.0, 1.0, 2.0, 10.0]
 IDS = [("a", 1), ("a", 2), ("b", 1), ("b", 2), ("retrievable", 7)]
@@ -46,8 +46,8 @@ def _random_case(seed: int) -> dict:
     deadlines = []
     for _ in range(n_ops):
         kind = rng.choices(["add", "pop", "has", "ptadd", "wait_for", "clear", "shutdown", "handler", "register_dup", "readd_same",
-                            "add_shared_future", "partial"],
-                           [30, 25, 8, 6, 5, 3, 3, 12, 4, 4, 3, 6])[0]
+                            "add_shared_future", "partial", "pop_readd"],
+                           [30, 25, 8, 6, 5, 3, 3, 12, 4, 4, 3, 6, 6])[0]
         if deadlines and rng.random() < 0.6:
             t = rng.choice(deadlines) + rng.choice([-2e-4, -2e-5, -1e-6, 0.0, 0.0, 1e-6, 2e-5, 2e-4, 1e-3])
         else:
@@ -363,6 +363,17 @@ def execute(case: dict) -> dict:  # noqa: C901, PLR0915
                     c.violate("dup_guard", "refused_add_damaged_outstanding_request",
                               f"the refused re-add of {ident} cancelled the future of the request that is still outstanding")
                 log.append(("readd", ident, "refused"))
+        elif kind == "pop_readd":
+            # the response claims the request and the caller re-issues it at once with the SAME cache object (a retry object that is
+            # reused), before the loop runs again: a new request in its own right - the old timer must not touch it
+            cur = model.get(ident)
+            if cur is not None and not st["shutdown_requested"] and cur.fut is None:
+                do_pop(ident, "pop-for-readd")
+                if ident not in model:
+                    cur.resolved = None
+                    cur.fired = 0
+                    c.probe("same_object_reissued_in_same_tick")
+                    _finish_add(cur, "re-issue", None)
         elif kind == "partial":
             # the user handles a partial answer: completes the first managed future itself, the request stays outstanding
             cur = model.get(ident)
